@@ -40,6 +40,7 @@ func authMode(r *sim.Rng, nStates, perState int, cw, cwBlk *sim.CaseWriter) {
 		if err != nil {
 			panic(err)
 		}
+		multisigReorderWitness(r, n, ms)
 		gen := sim.NewTxGen(r.Fork(), nKeys)
 		keyOf := func(i int) crypto.PrivateKeyI { return sim.BLSKey(i).Priv }
 		for c := 0; c < perState; c++ {
